@@ -113,6 +113,23 @@ def run(ctx, eng):
     ctx.ob('ORD.gate', fi.qual, 'server gate first', gate and not bad,
            '; '.join(sorted(set(bad))) or 'RFC1122Error for servers before '
            'anything else', node=fi.node)
+    # sending PRIORITY changes nothing but the output: no stream is created,
+    # no watermark moved, no field of the connection written
+    wrote = sorted({e.attr for p in paths for e in p.events
+                    if e.kind in ('write', 'store') and
+                    e.frame == fi.qual and e.get('attr') and
+                    e.get('base') == ('p', 'self')} |
+                   {cm.show0(e.container)[:30] for p in paths
+                    for e in p.events if e.kind == 'store' and
+                    e.frame == fi.qual})
+    created = any(cm.calls_to(p, '_begin_new_stream', '_get_or_create_stream')
+                  for p in paths)
+    ctx.ob('OWN.prioritize-writes', fi.qual, 'changes no connection or '
+           'stream state', not wrote and not created,
+           'prioritize() writes nothing and creates no stream%s' % (
+               (' (writes %s%s)' % (wrote, ', creates a stream' if created
+                                    else '')) if wrote or created else ''),
+           node=fi.node)
     check_priority_frame_fields(ctx, eng)
     _rest(ctx, eng)
 
